@@ -103,10 +103,16 @@ func (dmx *Demuxer) NextPacket() (p *Packet, err error) {
 
 	// Create packet buffer if not exists
 	if dmx.packetBuffer == nil {
-		if dmx.packetBuffer, err = newPacketBuffer(dmx.r, dmx.optPacketSize, dmx.optPacketSkipper); err != nil {
-			err = fmt.Errorf("astits: creating packet buffer failed: %w", err)
+		// Only keep the packet buffer once it's been successfully created, otherwise a failed packet size
+		// auto detection would leave an unusable buffer behind
+		var pb *packetBuffer
+		if pb, err = newPacketBuffer(dmx.r, dmx.optPacketSize, dmx.optPacketSkipper); err != nil {
+			if err != ErrNoMorePackets {
+				err = fmt.Errorf("astits: creating packet buffer failed: %w", err)
+			}
 			return
 		}
+		dmx.packetBuffer = pb
 	}
 
 	// Fetch next packet from buffer
